@@ -56,6 +56,28 @@ type L2Obs struct {
 	Nondet      string `json:"nondet,omitempty"` // first output that differs from the first run
 	Fmt         map[string]string `json:"fmt,omitempty"`
 	Sigs        map[string][]SigNames `json:"sigs,omitempty"` // declared parameter / result names per interface
+	Writes      int    `json:"writes"`               // how often Mock called Write on the writer it was given
+	FailWrite   string `json:"fail_write,omitempty"` // C17: what Mock did with a writer that fails
+}
+
+// countingWriter records how it is used; with failAfter >= 0 it fails after that many bytes.
+type countingWriter struct {
+	buf       bytes.Buffer
+	calls     int
+	failAfter int
+}
+
+func (w *countingWriter) Write(p []byte) (int, error) {
+	w.calls++
+	if w.failAfter >= 0 && w.buf.Len()+len(p) > w.failAfter {
+		n := w.failAfter - w.buf.Len()
+		if n < 0 {
+			n = 0
+		}
+		w.buf.Write(p[:n])
+		return n, fmt.Errorf("injected write failure after %d bytes", w.failAfter)
+	}
+	return w.buf.Write(p)
 }
 
 // SigNames are the names the source gives to the parameters and results of one method.
@@ -267,15 +289,37 @@ func runL2Case(c L2Case, dumpOnly bool) (o L2Obs) {
 			o.Kind, o.Text = "err", "new: "+err.Error()
 			return
 		}
-		var buf bytes.Buffer
-		if err := m.Mock(&buf, c.Args...); err != nil {
+		cw := &countingWriter{failAfter: -1}
+		err = m.Mock(cw, c.Args...)
+		o.Writes = cw.calls
+		if err != nil {
 			o.Kind, o.Text = "err", err.Error()
-			if buf.Len() != 0 {
-				o.Text += fmt.Sprintf(" [and %d bytes written]", buf.Len())
+			if cw.buf.Len() != 0 {
+				o.Text += fmt.Sprintf(" [and %d bytes written]", cw.buf.Len())
 			}
 			return
 		}
-		o.Kind, o.Text = "out", buf.String()
+		o.Kind, o.Text = "out", cw.buf.String()
+		if c.Fmts {
+			// a writer that fails after b bytes: Mock must hand everything over in one Write
+			// and return the writer's error
+			m2, err2 := moq.New(moq.Config{SrcDir: ".", PkgName: c.Pkg, Formatter: "noop",
+				StubImpl: c.Stub, SkipEnsure: c.Skip, WithResets: c.Resets})
+			if err2 == nil {
+				fw := &countingWriter{failAfter: len(o.Text) / 2}
+				e := m2.Mock(fw, c.Args...)
+				switch {
+				case e == nil:
+					o.FailWrite = "Mock returned nil although the writer failed"
+				case fw.calls != 1:
+					o.FailWrite = fmt.Sprintf("Mock called Write %d times on a failing writer", fw.calls)
+				case !strings.Contains(e.Error(), "injected write failure"):
+					o.FailWrite = "Mock did not return the writer's error: " + e.Error()
+				default:
+					o.FailWrite = "ok"
+				}
+			}
+		}
 		gen := func(formatter string) (string, error) {
 			m, err := moq.New(moq.Config{SrcDir: ".", PkgName: c.Pkg, Formatter: formatter,
 				StubImpl: c.Stub, SkipEnsure: c.Skip, WithResets: c.Resets})
